@@ -175,6 +175,9 @@ func (tw *tokenWorld) exchange(ch *kernel.Chooser) string {
 		form.Set("audience", "https://api.sim")
 	}
 	r := w.PostForm("/oauth/token", form, p.creds)
+	if requested == "" && w.Store.Policy.DefaultType == "" {
+		tw.o.Probe("exchange-without-a-type-and-without-a-storage-default")
+	}
 	ak := "none"
 	if actor != nil {
 		ak = actor.kind
@@ -243,6 +246,9 @@ func (tw *tokenWorld) exchange(ch *kernel.Chooser) string {
 		}
 	}
 	issued := tr.IssuedTokenType
+	if issued != string(oidc.AccessTokenType) && issued != string(oidc.RefreshTokenType) && issued != string(oidc.IDTokenType) {
+		tw.viol("C15", "declared-type", "token-exchange/undeclared", "%s: success response whose issued_token_type %q names no kind of token (requested %q, storage default %q)", desc, issued, requested, w.Store.Policy.DefaultType)
+	}
 	if issued == string(oidc.IDTokenType) || tr.IDToken != "" {
 		// an ID token came out: its user claims (and the act claim, and the last word on a refusal) are the storage's,
 		// asked through SetUserinfoFromTokenExchangeRequest - whatever the scope list looks like
@@ -343,7 +349,9 @@ func (tw *tokenWorld) policy(ch *kernel.Chooser) string {
 		p.VetoAt = ch.Pick("", "create", "claims", "claims", "userinfo", "userinfo")
 		p.VetoError = ch.Pick("", "", "plain", "canceled")
 	case 1:
-		p.DefaultType = []oidc.TokenType{oidc.AccessTokenType, oidc.RefreshTokenType, oidc.IDTokenType}[ch.Int(3)]
+		// "" = this storage does not fill in a type for requests that name none (defaulting is something a storage can do,
+		// not something it must do)
+		p.DefaultType = []oidc.TokenType{oidc.AccessTokenType, oidc.RefreshTokenType, oidc.IDTokenType, ""}[ch.Int(4)]
 	case 2:
 		if p.ImpersonateAs == "" {
 			p.ImpersonateAs = "u2"
